@@ -265,7 +265,12 @@ def _run_check(check, tier, seed, out, t0):
 
     extra = {}
     if hasattr(check, 'finish'):
-        extra = check.finish({'tier': tier, 'seed': seed, 'stats': stats}) or {}
+        try:
+            extra = check.finish({'tier': tier, 'seed': seed, 'stats': stats}) or {}
+        except HarnessError:
+            raise
+        except Exception:
+            raise HarnessError('conformance step failed:\n' + traceback.format_exc())
         for case, v in extra.pop('viol', []):
             stats['viol_count'] += 1
             stats['viol'].append((case, v))
